@@ -43,16 +43,16 @@ def indepAtoms (c : Cell) : List Nat :=
 /-- Operational model of `get_atomic_lat_trans_decompr_indices_O{n}` (and of
     `_get_atomic_lat_trans_decompr_indices` for n = 2): nested loops over
     (independent atom, j, k, ...) with a running counter, vectorised write over all translations. -/
-def atomicDecompr (c : Cell) (n : Nat) : Array Nat := Id.run do
-  let mut out := Array.replicate (c.N ^ n) 0
-  let mut cnt := 0
-  for ip in c.indepAtoms do
-    for rest in tuples c.N (n - 1) do
-      for l in List.range c.nlp do
-        let idx := flat c.N ((ip :: rest).map (c.img l))
-        out := out.setIfInBounds idx cnt
-      cnt := cnt + 1
-  return out
+def decomprKeys (c : Cell) (n : Nat) : List (List Nat) :=
+  c.indepAtoms.flatMap (fun ip => (tuples c.N (n - 1)).map (fun rest => ip :: rest))
+
+def atomicDecompr (c : Cell) (n : Nat) : Array Nat :=
+  -- the running counter of the Python loops is the position of `(i_patom, j, k, ..)` in loop order
+  ((c.decomprKeys n).zipIdx).foldl
+    (fun out (key, cnt) =>
+      (List.range c.nlp).foldl
+        (fun out l => out.setIfInBounds (flat c.N (key.map (c.img l))) cnt) out)
+    (Array.replicate (c.N ^ n) 0)
 
 /-- Closed form of the same array: the class of an atom tuple is
     `m * N^(n-1) + flat(rest)` where some translation `l` maps `(indep[m], rest)` onto the tuple. -/
@@ -72,14 +72,10 @@ def classIdx (c : Cell) (atoms : List Nat) : Option Nat :=
 
 /-- `get_lat_trans_decompr_indices(_O{n})`: element-level class index
     (`atomic class * 3^n + cartesian`). -/
-def latTransDecompr (c : Cell) (n : Nat) : Array Nat := Id.run do
+def latTransDecompr (c : Cell) (n : Nat) : Array Nat :=
   let ad := c.atomicDecompr n
   let p := 3 ^ n
-  let mut out := Array.replicate (c.N ^ n * p) 0
-  for a in List.range (c.N ^ n) do
-    for x in List.range p do
-      out := out.setIfInBounds (a * p + x) (ad.getD a 0 * p + x)
-  return out
+  Array.ofFn (n := c.N ^ n * p) (fun t => ad.getD (t.val / p) 0 * p + t.val % p)
 
 end Cell
 end Symfc
